@@ -26,7 +26,7 @@ def planner_events(ctx, q):
 def g1(ctx):
     out = []
     T = tags_of(ctx)
-    k = ctx.key_of('raw_cache::prune')
+    k = ctx.helper('raw_cache::prune')
     q = ctx.explore(k)
     P = planner_events(ctx, q)
     body = ctx.B[k]
@@ -85,7 +85,7 @@ def ordering_table(t):
 
 
 def entry_impl(ctx):
-    tr = ctx.traits.get('second_chance::Entry')
+    tr = ctx.planner_entry_trait()
     if not tr or len(tr['impls']) != 1:
         from ctx import RoleError
         raise RoleError('expected exactly one local implementation of second_chance::Entry')
@@ -156,9 +156,9 @@ def g3(ctx):
 def g4(ctx):
     out = []
     T = tags_of(ctx)
-    k = ctx.key_of('raw_cache::prune')
+    k = ctx.helper('raw_cache::prune')
     q = ctx.explore(k)
-    upd = ctx.adt('second_chance::Update')
+    upd = ctx.planner_adt()
     fi = {f['name']: i for i, f in enumerate(upd['variants'][0]['fields'])}
     if 'to_evict' not in fi or 'to_move_back' not in fi:
         return [inst('G4', 'plan fields', False, 'public plan fields to_evict / to_move_back not found')]
